@@ -30,4 +30,15 @@ def posToLineCol (cfg : LineCfg) (s : Str) (p : Nat) : Int × Int :=
   let col : Int := (p : Int) - (st : Int) + (if ln = 0 then cfg.firstLineColOffset else cfg.colOffset)
   ((ln : Int) + cfg.lineOffset, col)
 
+/-- driver operation `LINE lineOffset firstLineColOffset colOffset <s> pos` -/
+def handleLine (fields : List String) : Option String :=
+  match fields with
+  | ["LINE", lo, fo, co, s, p] =>
+    match lo.toInt?, fo.toInt?, co.toInt?, decodeStr s, p.toNat? with
+    | some lo, some fo, some co, some s, some p =>
+      let r := posToLineCol { lineOffset := lo, firstLineColOffset := fo, colOffset := co } s p
+      some s!"{r.1} {r.2}"
+    | _, _, _, _, _ => some "bad-op"
+  | _ => none
+
 end Pylx
